@@ -533,7 +533,17 @@ pub fn run(out: &mut Out, tier: &str, seed: u64, prop: &str) {
             } else { "none".into() };
             let marker = match &d.marker { Some(t) => dump(&t.build()), None => "T".into() };
             let want_prefix = format!("ok name={} extras={} vu={} marker={} w=", hex(&name), if extras.is_empty() { "-".to_string() } else { extras.join(";") }, vu, marker);
-            if !ans.starts_with(&want_prefix) {
+            // with the extension feature a `file:` URL is rebuilt from its (percent-decoded, normalised) path, so an
+            // escape that need not be one (`%2F` in a fragment) comes back literal: there the URL is compared up
+            // to percent-decoding — the derivation's URL and the parsed one must still denote the same path / fragment
+            let ext_file_same = cfg!(feature = "ext") && d.url.as_ref().is_some_and(|u| u.starts_with("file:")) && {
+                let dec = |h: &str| urlencoding::decode(&unhex(h)).map(|c| c.into_owned()).unwrap_or_default();
+                let field = |l: &str, i: usize| l.split(' ').find_map(|f| f.strip_prefix("vu=url:")).and_then(|v| v.split(':').nth(i)).map(|x| x.to_string()).unwrap_or_default();
+                let strip = |l: &str| l.split(' ').filter(|f| !f.starts_with("vu=")).collect::<Vec<_>>().join(" ");
+                out.stat("c07.ext_file_url_compared_decoded");
+                field(&ans, 0) == field(&want_prefix, 0) && dec(&field(&ans, 1)) == dec(&field(&want_prefix, 1)) && strip(&ans).starts_with(&strip(&want_prefix))
+            };
+            if !ans.starts_with(&want_prefix) && !ext_file_same {
                 out.oracle_fail("C07", "the parsed requirement does not have the derivation's components (name, extras, specifiers/URL, marker)", serde_json::json!({"text": text, "got": ans, "want": want_prefix}));
             }
             // changing only optional whitespace never changes the result
